@@ -77,7 +77,7 @@ def run_case(ctx, k, rng):
         if r3 < 0.35:       # another memory layout of the same float64 values
             fa, fb = vforms.relayout(rng, A)[0], vforms.relayout(rng, B)[0]
         else:
-            fa, fb = (A.astype(np.int64), B.astype(np.int64)) if (isint and rng.random() < 0.5) else (A.tolist(), B.tolist())
+            fa, fb = (vforms.as_int_dtype(rng, A)[0], vforms.as_int_dtype(rng, B)[0]) if (isint and rng.random() < 0.5) else (A.tolist(), B.tolist())
         for kind, fn, tolrow in (("bn", bottleneck, 1e-9 * sc), ("ws", wasserstein, 1e-7 * sc)):
             try:
                 ctx.ran(2)
